@@ -1001,82 +1001,44 @@ impl<'a> CompilerState<'a> {
                 }
             })
             .map_infix(|lhs, op, rhs| {
+                let l = lhs?;
+                let r = rhs?;
+                let start = op.as_span().start();
+                let overflow = || self.syntax_error("Constant expression overflow", start);
                 let res = match op.as_rule() {
-                    Rule::mul => lhs.unwrap() * rhs.unwrap(),
+                    Rule::mul => l.checked_mul(r).ok_or_else(overflow)?,
                     Rule::div => {
-                        let d = rhs.unwrap();
-                        if d == 0 {
-                            let start = op.as_span().start();
+                        if r == 0 {
                             return Err(self.syntax_error("Division by zero", start));
                         }
-                        lhs.unwrap() / d
+                        l.checked_div(r).ok_or_else(overflow)?
                     }
-                    Rule::add => lhs.unwrap() + rhs.unwrap(),
-                    Rule::sub => lhs.unwrap() - rhs.unwrap(),
-                    Rule::and => lhs.unwrap() & rhs.unwrap(),
-                    Rule::or => lhs.unwrap() | rhs.unwrap(),
-                    Rule::xor => lhs.unwrap() ^ rhs.unwrap(),
-                    Rule::brs => lhs.unwrap() >> rhs.unwrap(),
-                    Rule::bls => lhs.unwrap() << rhs.unwrap(),
-                    Rule::land => {
-                        if lhs.unwrap() != 0 && rhs.unwrap() != 0 {
-                            1
-                        } else {
-                            0
+                    Rule::add => l.checked_add(r).ok_or_else(overflow)?,
+                    Rule::sub => l.checked_sub(r).ok_or_else(overflow)?,
+                    Rule::and => l & r,
+                    Rule::or => l | r,
+                    Rule::xor => l ^ r,
+                    Rule::brs => {
+                        if !(0..32).contains(&r) {
+                            return Err(self.syntax_error("Bad shift count", start));
                         }
+                        l >> r
                     }
-                    Rule::lor => {
-                        if lhs.unwrap() != 0 || rhs.unwrap() != 0 {
-                            1
-                        } else {
-                            0
+                    Rule::bls => {
+                        if !(0..32).contains(&r) {
+                            return Err(self.syntax_error("Bad shift count", start));
                         }
+                        l << r
                     }
-                    Rule::gt => {
-                        if lhs.unwrap() > rhs.unwrap() {
-                            1
-                        } else {
-                            0
-                        }
-                    }
-                    Rule::gte => {
-                        if lhs.unwrap() >= rhs.unwrap() {
-                            1
-                        } else {
-                            0
-                        }
-                    }
-                    Rule::lt => {
-                        if lhs.unwrap() < rhs.unwrap() {
-                            1
-                        } else {
-                            0
-                        }
-                    }
-                    Rule::lte => {
-                        if lhs.unwrap() <= rhs.unwrap() {
-                            1
-                        } else {
-                            0
-                        }
-                    }
-                    Rule::eq => {
-                        if lhs.unwrap() == rhs.unwrap() {
-                            1
-                        } else {
-                            0
-                        }
-                    }
-                    Rule::neq => {
-                        if lhs.unwrap() != rhs.unwrap() {
-                            1
-                        } else {
-                            0
-                        }
-                    }
+                    Rule::land => (l != 0 && r != 0) as i32,
+                    Rule::lor => (l != 0 || r != 0) as i32,
+                    Rule::gt => (l > r) as i32,
+                    Rule::gte => (l >= r) as i32,
+                    Rule::lt => (l < r) as i32,
+                    Rule::lte => (l <= r) as i32,
+                    Rule::eq => (l == r) as i32,
+                    Rule::neq => (l != r) as i32,
                     Rule::ternary_cond1 => {
-                        let l = lhs.unwrap();
-                        let r = rhs.unwrap();
                         debug!("t1: left: {} right: {}", l, r);
                         if l != 0 {
                             r
@@ -1085,8 +1047,6 @@ impl<'a> CompilerState<'a> {
                         }
                     }
                     Rule::ternary_cond2 => {
-                        let l = lhs.unwrap();
-                        let r = rhs.unwrap();
                         debug!("t2: left: {} right: {}", l, r);
                         if l == 0x7eaddead {
                             r
@@ -1099,7 +1059,9 @@ impl<'a> CompilerState<'a> {
                 Ok(res)
             })
             .map_prefix(|op, rhs| match op.as_rule() {
-                Rule::neg => Ok(-rhs?),
+                Rule::neg => rhs?.checked_neg().ok_or_else(|| {
+                    self.syntax_error("Constant expression overflow", op.as_span().start())
+                }),
                 Rule::not => Ok(!rhs?),
                 Rule::bnot => Ok(!rhs?),
                 _ => unreachable!(),
